@@ -231,6 +231,11 @@ def _parse_iso8601_interval(text: str) -> _Interval:
         start = parse_iso8601(first)
         end = parse_iso8601(last)
 
+    for endpoint in (start, end):
+        # Only dates and datetimes can delimit an interval
+        if endpoint is not None and not isinstance(endpoint, date):
+            raise ParserError("Invalid interval")
+
     return _Interval(
         cast(datetime, start), cast(datetime, end), cast(Duration, duration)
     )
